@@ -15,6 +15,7 @@ import SJ.Drv.C16
 import SJ.Drv.C04
 import SJ.Drv.Typed
 import SJ.Drv.C07
+import SJ.Drv.LexMath
 /-!
 `sjdriver` — reads case lines `op args… => impl-observation` on stdin, runs the Lean model and the
 executable specification on each, prints
@@ -43,6 +44,7 @@ def allHandlers : List (String × Handler) :=
     C04.handlers,
     Typed.handlers,
     C07.handlers,
+    LexMath.handlers,
   ]
 
 def findHandler (op : String) : Option Handler := (allHandlers.find? (·.1 == op)).map (·.2)
